@@ -173,6 +173,12 @@ def collect(ctx: Ctx, profile: str):
                 w, _ = vs.out_of(M, nm)
                 events.append({"ev": "litreject", "T": T, "w": w})
                 meta.append(("nonmember", repr(nm)))
+    # passive source: every marshal() call the repository's own test suite makes (bytes-like outputs are outside C06)
+    from .. import suite
+    for m in suite.record()["marshal"]:
+        if not m["byteslike"]:
+            events.append(m["event"])
+            meta.append(("suite", f"{m['t']} {m['value']}"[:100]))
     return events, meta, model, len(types)
 
 
